@@ -65,9 +65,16 @@ class BaseValidator(object):
 
     def __exit__(self, exc_type, exc_val, exc_tb):
         """
-        Simply call :py:meth:`~.close()`.
+        Simply call :py:meth:`~.close()`. In case an error already is on its
+        way, keep it instead of replacing it by a failed check at the end.
         """
-        self.close()
+        if exc_type is None:
+            self.close()
+        else:
+            try:
+                self.close()
+            except errors.CutplaceError:
+                pass
 
     @property
     def cid(self):
